@@ -190,7 +190,8 @@ class C07(Check):
                                 R.add('max_rel_bond_err_e18', int(min(worst, 1.0) * 1e18))
                     moved_others = bool(np.any(out != before) and
                                         np.any(np.delete(out, atom, 0) != np.delete(before, atom, 0)))
-                    R.case(cdesc, nontrivial=moved_others,
+                    n_moved = int(np.sum(np.any(out != before, axis=1))) if out.shape == before.shape else -1
+                    R.case(cdesc, nontrivial=moved_others, outcome=f'atoms-repositioned={min(n_moved, 6)}',
                            cls=f"{case.get('fam') or ('cyclic' if case.get('cyclic') else 'tree')}/n{n}/{case['table']}/{dk}")
                     if sig:
                         R.violation(sig, cdesc, det)
@@ -223,7 +224,7 @@ class C07(Check):
                 atom = picked[-1]
                 cdesc = dict(case, choices=list(ctx.trace))
                 moved = np.abs(out[atom] - pos[atom]).max() > 0
-                R.case(cdesc, nontrivial=moved, cls=f'randatom/n{n}')
+                R.case(cdesc, nontrivial=moved, cls=f'randatom/n{n}', outcome=f'random-atom-picked={atom}')
                 if not np.all(np.isfinite(out)):
                     R.violation('randatom/non-finite', cdesc, out.tolist())
                 for a, b in edges:
@@ -258,7 +259,8 @@ class C07(Check):
 
         def on_exec(ctx, d, cut):
             cdesc = dict(case, atom=atom, choices=list(ctx.trace))
-            R.case(cdesc, nontrivial=True, cls=f'displ/neigh{min(len(nb), 3)}')
+            R.case(cdesc, nontrivial=True, cls=f'displ/neigh{min(len(nb), 3)}',
+                   outcome=f'displacement-drawn/neighbours={min(len(nb), 3)}')
             if 'bad_sigma' in ctx.data:
                 R.violation('displ/sigma-not-bond-length-times-scale', cdesc, ctx.data['bad_sigma'])
             if not np.all(np.isfinite(d)):
